@@ -475,12 +475,12 @@ Proof.
   intros i j x Hi Hj. apply (TransRank.vrank_insert_same_slot pct rev xs ys i j x H Hi Hj).
 Qed.
 
-(* NOT PROVED — the rank map under null insertion at a generic carrier.  Without a law it is false: a series with ONE valid
-   element of length 1 takes the early return and gets the literal 1.0 (`none`), the same element in a longer series gets
-   `1 as f64 / 1 as f64` from the loop; with that one law the statement below is expected to hold (checked by vm_compute
-   on every series over {1, 2, null} and every pattern up to length 4 on the integer carrier; what is missing is a
-   relational induction through the run-length loop along the position embedding: notes/C08.md).  Proved part:
-   C08_transparent_rank (option R). *)
+(* The rank map under null insertion at a generic carrier — recorded unproved by extension X4, PROVED by extension X28 at
+   the end of this file (C08_transparent_rank_generic, C08_transparent_rank_generic_closes_full_statement).  Without a
+   law it is false: a series with ONE valid element of length 1 takes the early return and gets the literal 1.0 (`none`),
+   the same element in a longer series gets `1 as f64 / 1 as f64` from the loop (C08_transparent_rank_law_necessary);
+   with that one law the statement holds: relational induction through the run-length loop along the position
+   embedding, Proofs/RankTransparent.v. *)
 Definition C08_transparent_rank_generic_full_statement : Prop :=
   forall (A : Type) (NA : Num A) (T : Type) (D : IsNone T A) (DX : SortCmp.IsNoneX T A),
     ndiv (nofnat (A := A) 1) (nofnat 1) = none ->
@@ -628,3 +628,151 @@ Qed.
 
 Print Assumptions C08_quantile_index_law_binary64.
 Print Assumptions C08_transparent_quantile_binary64.
+
+(* ==== extension X28: rank transparency at a GENERIC carrier ======================================================
+   `C08_transparent_rank_generic_full_statement` (above, recorded unproved by extension X4) is now a theorem.
+   Carrier: every `Num A`; dictionary: every `IsNone T A` with every `IsNoneX T A` (an arbitrary `==`); no order law on
+   the comparison of two non-null values; the ONE law used is `RankUnitLaw A`: `1 as f64 / 1 as f64 = 1.0`
+   (`nofnat 1 / nofnat 1 = none`), which reconciles the literal `1.0` of the length-1 early return with the
+   `sum_rank / repeat_num` that the loop writes for a lone valid element followed by nulls.  The law holds at Z,
+   option R and binary64 (by computation there: no float axiom), and it is necessary (a carrier where it fails and the
+   transparency fails with it).  Proofs: Proofs/RankTransparent.v (axiom-free).                                   *)
+From Tevec Require Proofs.RankTransparent.
+
+Theorem C08_rank_unit_law_instances :
+  RankTransparent.RankUnitLaw Z (NA := NumZ) /\
+  RankTransparent.RankUnitLaw XR (NA := NumXR) /\
+  RankTransparent.RankUnitLaw PrimFloat.float (NA := F64.NumF64).
+Proof.
+  split; [exact RankTransparent.rank_unit_law_Z|].
+  split; [exact RankTransparent.rank_unit_law_xr|exact RankTransparent.rank_unit_law_f64].
+Qed.
+
+(* step (1) of the plan: the sorted index vector of a series is the sorted index vector of its valid elements,
+   re-indexed by the positions of the valid elements (`vphi ys k` = position in ys of the k-th valid element), followed
+   by the null positions in input order — whatever the comparator does on two non-null values *)
+Theorem C08_transparent_argsort :
+  forall {A} {NA : Num A} {T} {D : IsNone T A} (rev : bool) (ys : list T),
+    SortCmp.isort (SortCmp.cmp_idx (SortCmp.cmp_dir rev) ys) (seq 0 (length ys))
+    = map (RankTransparent.vphi ys)
+          (SortCmp.isort (SortCmp.cmp_idx (SortCmp.cmp_dir rev) (filter not_none ys)) (seq 0 (SortCmp.count_valid ys)))
+      ++ RankTransparent.npos ys.
+Proof. intros A NA T D rev ys. apply RankTransparent.argsort_split. Qed.
+
+(* deleting every null: the ranks of a series are the ranks of its valid elements, put back at the valid slots in order
+   (`scatter`), and NaN at the null slots — the rank map is a function of the valid elements and of the null mask *)
+Theorem C08_transparent_rank_valid_only :
+  forall {A} {NA : Num A} {T} {D : IsNone T A} {DX : SortCmp.IsNoneX T A},
+    RankTransparent.RankUnitLaw A ->
+    forall (pct rev : bool) (ys : list T),
+      Tevec.Model.Rank.vrank pct rev ys
+        = RankTransparent.scatter ys (Tevec.Model.Rank.vrank pct rev (filter not_none ys)) /\
+      length (Tevec.Model.Rank.vrank pct rev (filter not_none ys)) = SortCmp.count_valid ys.
+Proof. intros A NA T D DX HL pct rev ys. apply RankTransparent.vrank_delete_nulls. exact HL. Qed.
+
+(* the recorded statement: inserting nulls by ANY pattern leaves the rank of every original element unchanged — the
+   same term, hence bit for bit — and gives the inserted positions the null rank; pct and plain ranks, both directions *)
+Theorem C08_transparent_rank_generic :
+  forall (A : Type) (NA : Num A) (T : Type) (D : IsNone T A) (DX : SortCmp.IsNoneX T A),
+    ndiv (nofnat (A := A) 1) (nofnat 1) = none ->
+    forall (pct rev : bool) (nl : T) (p : list bool) (xs : list T), is_none nl = true ->
+      Tevec.Model.Rank.vrank pct rev (insert_pat nl p xs) = insert_pat (Some nnan) p (Tevec.Model.Rank.vrank pct rev xs).
+Proof. intros A NA T D DX HL pct rev nl p xs Hn. apply RankTransparent.vrank_insert_pat_generic; assumption. Qed.
+
+Theorem C08_transparent_rank_generic_closes_full_statement : C08_transparent_rank_generic_full_statement.
+Proof. exact C08_transparent_rank_generic. Qed.
+
+(* the inductive insertion (the inserted nulls may be different null elements: NaNs with different payloads, None):
+   the pattern is read off the option views *)
+Theorem C08_transparent_rank_insert_generic :
+  forall {A} {NA : Num A} {T} {D : IsNone T A} {DX : SortCmp.IsNoneX T A},
+    RankTransparent.RankUnitLaw A ->
+    forall (pct rev : bool) (xs ys : list T),
+      NullInsert xs ys ->
+      exists p, opt_view ys = insert_pat None p (opt_view xs) /\
+                Tevec.Model.Rank.vrank pct rev ys = insert_pat (Some nnan) p (Tevec.Model.Rank.vrank pct rev xs).
+Proof. intros A NA T D DX HL pct rev xs ys H. apply RankTransparent.vrank_null_insert_generic; assumption. Qed.
+
+(* re-encoding and insertion composed: e.g. a float series against its Option rendering with extra Nones *)
+Theorem C08_transparent_rank_across_encodings :
+  forall {A} {NA : Num A} {T1 T2} (D1 : IsNone T1 A) (D2 : IsNone T2 A)
+         (DX1 : SortCmp.IsNoneX T1 A) (DX2 : SortCmp.IsNoneX T2 A) (pct rev : bool) (xs : list T1) (xs' ys : list T2),
+    RankTransparent.RankUnitLaw A -> EncRank.EqbView D1 D2 DX1 DX2 -> SameView D1 D2 xs xs' -> NullInsert (D := D2) xs' ys ->
+    exists p, opt_view (D := D2) ys = insert_pat None p (opt_view (D := D1) xs) /\
+              Tevec.Model.Rank.vrank (DT := D2) (DX := DX2) pct rev ys
+              = insert_pat (Some nnan) p (Tevec.Model.Rank.vrank (DT := D1) (DX := DX1) pct rev xs).
+Proof. intros A NA T1 T2 D1 D2 DX1 DX2 pct rev xs xs' ys HL HE HS HI.
+  apply (RankTransparent.vrank_insert_across_encodings D1 D2 DX1 DX2 pct rev xs xs' ys HL HE HS HI).
+Qed.
+
+(* AT BINARY64 (Coq's primitive float, the instance the correspondence run evaluates), outright: every null dictionary
+   over f64 (NaN is the null; Option<f64>), every `==`; no float axiom is needed — the law is a computation *)
+Theorem C08_transparent_rank_binary64 :
+  forall {T} {D : IsNone T PrimFloat.float} {DX : SortCmp.IsNoneX T PrimFloat.float}
+         (pct rev : bool) (nl : T) (p : list bool) (xs : list T), is_none nl = true ->
+    Tevec.Model.Rank.vrank (NA := F64.NumF64) pct rev (insert_pat nl p xs)
+    = insert_pat (Some PrimFloat.nan) p (Tevec.Model.Rank.vrank (NA := F64.NumF64) pct rev xs).
+Proof.
+  intros T D DX pct rev nl p xs Hn.
+  apply (RankTransparent.vrank_insert_pat_generic RankTransparent.rank_unit_law_f64 pct rev nl p xs Hn).
+Qed.
+
+(* at the integer carrier (ranks computed with the integer arithmetic of NumZ; dictionaries with a null, e.g. Option<i32>) *)
+Theorem C08_transparent_rank_integer :
+  forall {T} {D : IsNone T Z} {DX : SortCmp.IsNoneX T Z} (pct rev : bool) (nl : T) (p : list bool) (xs : list T),
+    is_none nl = true ->
+    Tevec.Model.Rank.vrank (NA := NumZ) pct rev (insert_pat nl p xs)
+    = insert_pat (Some 0%Z) p (Tevec.Model.Rank.vrank (NA := NumZ) pct rev xs).
+Proof.
+  intros T D DX pct rev nl p xs Hn.
+  apply (RankTransparent.vrank_insert_pat_generic RankTransparent.rank_unit_law_Z pct rev nl p xs Hn).
+Qed.
+
+(* the law is necessary: the integers with a division returning 0 — the law fails, and a lone valid element gets rank
+   1 alone and rank 0 next to an inserted null *)
+Theorem C08_transparent_rank_law_necessary :
+  exists (NA : Num Z),
+    ~ RankTransparent.RankUnitLaw Z (NA := NA) /\
+    Tevec.Model.Rank.vrank (NA := NA) (DT := IsNone_option (H := NA)) (DX := SortCmp.IsNoneX_option (H := NA))
+          false false (insert_pat None [true] [Some 5%Z])
+    <> insert_pat (Some (nnan (Num := NA))) [true]
+         (Tevec.Model.Rank.vrank (NA := NA) (DT := IsNone_option (H := NA)) (DX := SortCmp.IsNoneX_option (H := NA))
+                false false [Some 5%Z]).
+Proof. exists RankTransparent.NumZ_baddiv. exact RankTransparent.rank_unit_law_necessary. Qed.
+
+(* ---- non-vacuity ---- *)
+(* a null element, a pattern, ties, both dictionaries over binary64: the ranks of 3, 1, 3 are 2.5, 1, 2.5 wherever
+   the NaNs / Nones are inserted *)
+Example C08_ex_rank_insert_binary64 :
+  is_none (IsNone := F64.IsNoneF64) PrimFloat.nan = true /\
+  insert_pat PrimFloat.nan [true; false; true; false] [3%float; 1%float; 3%float]
+    = [PrimFloat.nan; 3%float; PrimFloat.nan; 1%float; 3%float] /\
+  Tevec.Model.Rank.vrank (DT := F64.IsNoneF64) (DX := SortCmp.IsNoneX_float) false false
+      [PrimFloat.nan; 3%float; PrimFloat.nan; 1%float; 3%float]
+    = [Some PrimFloat.nan; Some 2.5%float; Some PrimFloat.nan; Some 1%float; Some 2.5%float] /\
+  Tevec.Model.Rank.vrank (DT := F64.IsNoneOptF64) (DX := SortCmp.IsNoneX_option) true true
+      [Some 3%float; None; Some 1%float; None]
+    = [Some 0.5%float; Some PrimFloat.nan; Some 1%float; Some PrimFloat.nan].
+Proof. repeat split; vm_compute; reflexivity. Qed.
+(* the lone valid element: early return (`1.0`) vs loop (`1 / 1`) — the case the law is for *)
+Example C08_ex_rank_lone_valid_binary64 :
+  Tevec.Model.Rank.vrank (DT := F64.IsNoneF64) (DX := SortCmp.IsNoneX_float) true false [7%float] = [Some 1%float] /\
+  Tevec.Model.Rank.vrank (DT := F64.IsNoneF64) (DX := SortCmp.IsNoneX_float) true false [PrimFloat.nan; 7%float; PrimFloat.nan]
+    = [Some PrimFloat.nan; Some 1%float; Some PrimFloat.nan].
+Proof. split; vm_compute; reflexivity. Qed.
+(* premises of the across-encodings form *)
+Example C08_ex_rank_across_premises :
+  SameView (IsNone_float (H := F64.NumF64)) (IsNone_option (H := F64.NumF64)) [3%float; PrimFloat.nan] [Some 3%float; None] /\
+  NullInsert (D := IsNone_option (H := F64.NumF64)) [Some 3%float; None] [None; Some 3%float; None].
+Proof. split; [repeat constructor|]. apply ni_null; [reflexivity|]. apply ni_keep, ni_keep, ni_nil. Qed.
+
+Print Assumptions C08_rank_unit_law_instances.
+Print Assumptions C08_transparent_argsort.
+Print Assumptions C08_transparent_rank_valid_only.
+Print Assumptions C08_transparent_rank_generic.
+Print Assumptions C08_transparent_rank_generic_closes_full_statement.
+Print Assumptions C08_transparent_rank_insert_generic.
+Print Assumptions C08_transparent_rank_across_encodings.
+Print Assumptions C08_transparent_rank_binary64.
+Print Assumptions C08_transparent_rank_integer.
+Print Assumptions C08_transparent_rank_law_necessary.
